@@ -118,6 +118,12 @@ def o_check(case):
     verdict, ra, rb, info = reference_verdict(coin, m)
     tx = txgen.to_pycoin(Tx, m)
     serialisable = info["total"] is not None
+    if serialisable and len(m["ins"]) >= 2 and (len(m["ins"]) + len(m["outs"])) % 3 == 0:
+        # inputs of mixed provenance, as in a transaction that was parsed and then extended by hand: every other input is
+        # the parsed object (its hash is the library's reversed-hex bytes subclass), the rest are constructed from plain bytes
+        parsed = Tx.from_bin(tx.as_bin())
+        for k in range(0, len(tx.txs_in), 2):
+            tx.txs_in[k] = parsed.txs_in[k]
     before = _snapshot(tx)
     before_bin = tx.as_bin() if serialisable else None
     if serialisable and before_bin != refser.ser_tx(m):
